@@ -160,18 +160,18 @@ impl Query {
     }
 
     pub fn calc(&self) -> HashSet<Box<[u8]>> {
-        let mut result = HashSet::new();
-        for cond in self.conds.iter() {
-            if result.is_empty() {
-                result = cond.result.clone();
-            } else {
-                result = result
+        // None: no condition applied yet (an empty set is a valid result)
+        let mut result: Option<HashSet<Box<[u8]>>> = None;
+        for cond in self.conds.iter().filter(|c| !c.conds.is_empty()) {
+            result = Some(match result {
+                None => cond.result.clone(),
+                Some(r) => r
                     .intersection(&cond.result)
                     .cloned()
-                    .collect::<HashSet<_>>()
-            }
+                    .collect::<HashSet<_>>(),
+            });
         }
-        result
+        result.unwrap_or_default()
     }
 
     pub fn push(mut self, cond: Cond) -> Self {
@@ -217,7 +217,8 @@ impl Query {
     }
 
     pub fn is_cond(&self) -> bool {
-        !self.conds.is_empty()
+        // a condition without expressions does not constrain anything
+        self.conds.iter().any(|c| !c.conds.is_empty())
     }
 
     pub fn order_by(&self) -> &Vec<(String, bool)> {
